@@ -13,8 +13,9 @@ from models_str import StrTok
 from props.common import *
 from props.service import sym_managers, proto, request, start_handler, status_code
 
-OUTSIDE = ['tonic/h2 delivery of the final status to the client', 'more than one consumer per subscription; requests in flight other than the consumer\'s own pull',
-           'the interleaving of the deletion with a consumer that is *inside* an iteration (between taking its signals and parking)']
+OUTSIDE = ['tonic/h2 delivery of the final status to the client',
+           'more than two consumers per subscription; more than two actor events next to the deletion; consumers cancelled by their client mid-way',
+           'interleavings finer than shared-operation granularity inside one actor step (the actor handles one request at a time: A1)']
 ASSUMPTIONS = ['notify_waiters() of the deletion reaches exactly the Notified futures created before it; the deletion one-shot stays resolved',
                'after the deletion the actor either still answers (empty batch) or its mailbox is closed']
 
@@ -165,7 +166,16 @@ def obligations(ctx, cfg):
     from props.C11 import SubDelete
     sd = SubDelete(ctx)
     sd.id = 'C12.c-delete-signals'
-    return [StreamingDelete(), UnaryDelete(), sd]
+    from props.races import ConsumerRace
+    obs = [StreamingDelete(), UnaryDelete(), sd,
+           ConsumerRace(ctx, 'C12.d-race-pull-delete', ['pull'], ['delete'], n_out=0, n_back=0),
+           ConsumerRace(ctx, 'C12.d-race-stream-delete', ['stream'], ['delete'], n_out=0, n_back=0)]
+    if cfg['tier'] == 'thorough':
+        obs += [ConsumerRace(ctx, 'C12.d-race-pull-post-delete', ['pull'], ['post', 'delete'], n_out=0, n_back=0),
+                ConsumerRace(ctx, 'C12.d-race-stream-post-delete', ['stream'], ['post', 'delete'], n_out=0, n_back=0),
+                ConsumerRace(ctx, 'C12.d-race-pull-stream-delete', ['pull', 'stream'], ['delete'], n_out=0, n_back=0),
+                ConsumerRace(ctx, 'C12.d-race-stream-backlog-delete', ['stream'], ['delete'], n_out=1, n_back=1)]
+    return obs
 
 
 def native_replay(ob_id, v):
@@ -173,4 +183,8 @@ def native_replay(ob_id, v):
         return {'judge': 'delete_releases', 'scenario': 'delete_releases_streaming_pull'}
     if ob_id == 'C12.b-unary':
         return {'judge': 'delete_releases', 'scenario': 'delete_releases_blocked_pull'}
+    if ob_id.startswith('C12.d-race-pull'):
+        return {'judge': 'delete_releases', 'scenario': 'delete_releases_blocked_pull'}
+    if ob_id.startswith('C12.d-race-stream'):
+        return {'judge': 'delete_releases', 'scenario': 'delete_releases_streaming_pull'}
     return None
